@@ -34,12 +34,13 @@ PI4 = math.pi / 4
 # ----------------------------------------------------------------------------- circuit class configurations
 
 class Cfg:
-    def __init__(self, cls, name, make, kinds, params=False, tol=1e-9, rtol=1e-8, edges=None):
+    def __init__(self, cls, name, make, kinds, params=False, tol=1e-9, rtol=1e-8, edges=None, lazyconv=False):
         self.cls, self.name, self.make, self.kinds = cls, name, make, set(kinds)
         self.params = params        # supports parametrized gates / set_params / update_params_from
         self.tol = tol              # snapping tolerance on the exact grid
         self.rtol = rtol            # tolerance of the relational records (random angles)
         self.edges = edges
+        self.lazyconv = lazyconv    # convert_eager=False on an MPS class: every local_expectation works on a copy
 
 
 EXACT_KINDS = ("amp", "dense", "ptr", "expec", "marg", "sample")
@@ -65,6 +66,9 @@ def configurations(tier):
         Cfg("CircuitMPS", "nonlocal", lambda N: qtn.CircuitMPS(N, gate_contract="nonlocal"), MPS_KINDS + ("sampleprob",), rtol=1e-4),
         Cfg("CircuitMPS", "swap+split", lambda N: qtn.CircuitMPS(N, gate_contract="swap+split"), MPS_KINDS + ("sampleprob",), rtol=1e-4),
         Cfg("CircuitMPS", "auto-mps,cutoff=0", lambda N: qtn.CircuitMPS(N, cutoff=0.0), MPS_KINDS + ("sampleprob",), rtol=1e-8),
+        Cfg("CircuitMPS", "convert_eager=False", lambda N: qtn.CircuitMPS(N, convert_eager=False, dtype="complex128"),
+            MPS_KINDS + ("sampleprob",), rtol=1e-4, lazyconv=True),
+        Cfg("Circuit", "convert_eager=True", lambda N: qtn.Circuit(N, convert_eager=True, dtype="complex128"), EXACT_KINDS + ("uni",), params=True),
         Cfg("CircuitPermMPS", "swap+split", lambda N: qtn.CircuitPermMPS(N), MPS_KINDS, rtol=1e-4),
         Cfg("CircuitPermMPS", "auto-mps", lambda N: qtn.CircuitPermMPS(N, gate_contract="auto-mps"), MPS_KINDS, rtol=1e-4),
         Cfg("CircuitMPSLazy", "default", lambda N: qtn.CircuitMPSLazy(N), MPS_KINDS + ("sampleprob",), rtol=1e-4),
@@ -98,6 +102,7 @@ class Obj:
         self.accepted = []      # gate dicts accepted so far (with current parameters), for rebuilding
         self.mmap = {}          # S->C: gate index in the model -> gate index in this object
         self.cp = False         # made by .copy()
+        self.expcopy = False    # an earlier local_expectation of this MPS object worked on a copy of _psi (KF-C07-9)
 
     # -- gates
     def matrix_of(self, g):
@@ -124,6 +129,7 @@ class Obj:
 
     def rebuild(self):
         self.cp = False
+        self.expcopy = False
         self.c = self.cfg.make(self.N)
         for g in self.accepted:
             self.apply(g)
@@ -135,6 +141,7 @@ class Obj:
         o.accepted = [dict(g) for g in self.accepted]
         o.mmap = dict(self.mmap)
         o.cp = True
+        o.expcopy = self.expcopy
         return o
 
     # -- read-outs (plain numpy on what the public calls return)
@@ -157,9 +164,19 @@ class Obj:
     def query(self, q, rng_seed=0, dtype128=True):
         """-> ndarray / complex / list, as returned by quimb (converted to plain python/numpy)"""
         c, k = self.c, q["kind"]
+        # query options: "dtype" -> dtype='complex128' ; "seq" -> another simplification sequence (exact classes)
+        kw = {}
+        opt = q.get("opt", "")
+        simple = self.cfg.edges is not None
+        if opt == "dtype" and not simple and k in ("amp", "dense", "ptr", "expec"):
+            kw["dtype"] = "complex128"
+        if opt == "seq" and self.cfg.cls in ("Circuit", "CircuitDense") and k in ("amp", "dense", "ptr", "expec"):
+            kw["simplify_sequence"] = "R" if k != "dense" else "ADCRS"
         if k == "amp":
-            return _scalar(c.amplitude("".join(str(b) for b in q["b"])))
+            return _scalar(c.amplitude("".join(str(b) for b in q["b"]), **kw))
         if k == "dense":
+            if kw:
+                return np.asarray(c.to_dense(reverse=bool(q["rev"]), **kw)).reshape(-1)
             return self.dense(bool(q["rev"]))
         if k == "psi":
             return self.psi_dense()
@@ -170,11 +187,15 @@ class Obj:
                 raise LookupError("uni: outer indices %s" % sorted(U.outer_inds()))
             return np.asarray(U.to_dense([c.ket_site_ind(i) for i in range(self.N)], [c.bra_site_ind(i) for i in range(self.N)]))
         if k == "ptr":
-            return np.asarray(c.partial_trace(tuple(q["keep"])))
+            return np.asarray(c.partial_trace(tuple(q["keep"]), **kw))
         if k == "expec":
             G = q["G"]
             w = tuple(q["where"])
-            return _scalar(c.local_expectation(G, w if len(w) > 1 else w[0]))
+            try:
+                return _scalar(c.local_expectation(G, w if len(w) > 1 else w[0], **kw))
+            finally:
+                if self.cfg.cls in ("CircuitMPS", "CircuitPermMPS", "CircuitMPSLazy") and ("dtype" in kw or self.cfg.lazyconv):
+                    self.expcopy = True
         if k == "marg":
             fix = {int(a): str(int(b)) for a, b in q["fix"]} or None
             if self.cfg.cls in ("Circuit", "CircuitDense"):
@@ -365,6 +386,10 @@ def replay_behaviour(beh, cfg, tables, tid, N, seed):
                 continue        # the simple update classes have no `reverse` argument
             if k == "expec" and cfg.edges is not None and len(q["where"]) == 2 and abs(q["where"][0] - q["where"][1]) != 1:
                 continue        # ... and two-site operators only on an edge
+            if "opt" not in q:
+                q["opt"] = ["", "", "dtype", "seq"][(seed + 3 * seq[0]) % 4]
+                if k == "expec" and cfg.cls in ("CircuitMPS", "CircuitPermMPS", "CircuitMPSLazy"):
+                    q["opt"] = ""
             if k == "expec":
                 q["G"] = dw_array(tables["ops"][q["op"]])
             fields = {kk: vv for kk, vv in q.items() if kk not in ("G",)}
@@ -400,6 +425,19 @@ def enum_behaviour(seq3, k):
         else:
             b.append({"op": "updp", "ps": [[i, [4 if j % 2 else 6]] for j, i in enumerate(pars)]})
         b += [{"op": "query", "q": dict(q)} for q in BATTERY]
+    # two live objects (original and copy) driven alternately, every query judged against its own register
+    cx01 = {"name": "CX", "q": [0, 1], "c": [], "p": [], "par": False}
+    cx12 = {"name": "CX", "q": [1, 2], "c": [], "p": [], "par": False}
+    e0 = {"kind": "expec", "op": "P01", "where": [0]}
+    e21 = {"kind": "expec", "op": "E0110", "where": [2, 1]}
+    b += [{"op": "copy"}, {"op": "gate", "g": cx01}, {"op": "switch"}, {"op": "query", "q": dict(e0)}, {"op": "query", "q": dict(e21)},
+          {"op": "gate", "g": cx12}, {"op": "switch"}, {"op": "query", "q": dict(e0)}, {"op": "query", "q": {"kind": "ptr", "keep": [2]}},
+          {"op": "switch"}, {"op": "query", "q": dict(e21)}, {"op": "query", "q": {"kind": "dense", "rev": False}}]
+    # query options, each query twice
+    for q in ({"kind": "amp", "b": [1, 0, 1], "opt": "dtype"}, {"kind": "ptr", "keep": [2, 0], "opt": "seq"},
+              {"kind": "expec", "op": "P01", "where": [2], "opt": "seq"}, {"kind": "dense", "rev": False, "opt": "dtype"},
+              {"kind": "expec", "op": "P01", "where": [0], "opt": "dtype"}):
+        b += [{"op": "query", "q": dict(q)}, {"op": "query", "q": dict(q)}]
     return b
 
 
@@ -412,7 +450,7 @@ def _untagged(gates):
 
 def _hflags(gates, o=None):
     """facts about the accepted gate list that the known-finding entries are keyed on"""
-    return {"cp": bool(o is not None and o.cp), "ctl": any(g["c"] for g in gates),
+    return {"cp": bool(o is not None and o.cp), "expcopy": bool(o is not None and o.expcopy), "ctl": any(g["c"] for g in gates),
             "ctliden": any(g["c"] and g["name"] == "IDEN" for g in gates),
             "swap": any(g["name"] == "SWAP" and not g["c"] for g in gates)}
 
@@ -603,7 +641,8 @@ def np_unitary(gates, N):
 
 def random_query(rng, N, kinds):
     k = rng.choice(sorted(kinds))
-    q = {"kind": k}
+    q = {"kind": k, "opt": rng.choice(["", "", "", "seq", "dtype"]) if k in ("amp", "dense", "ptr") else
+         (rng.choice(["", "", "", "", "seq", "dtype"]) if k == "expec" else "")}
     if k == "amp":
         q["b"] = [rng.randrange(2) for _ in range(N)]
     elif k == "dense":
@@ -646,7 +685,7 @@ def np_query(q, psi, gates, N):
 
 
 def _qfields(q):
-    out = {"kind": q["kind"]}
+    out = {"kind": q["kind"], "opt": q.get("opt", "")}
     for kk in ("b", "rev", "keep", "where", "fix"):
         if kk in q:
             out[kk] = q[kk]
@@ -666,12 +705,14 @@ def random_walk(seed, tid, cfgs, N, length, thorough):
             hist.append(("gate", g))
         elif k < 0.85:
             hist.append(("query", rng.random(), rng.randrange(1 << 30)))
-        elif k < 0.93:
+        elif k < 0.91:
             hist.append(("setp", rng.random(), [_rand_angle(rng) for _ in range(15)]))
-        elif k < 0.97:
+        elif k < 0.94:
             hist.append(("updp", [_rand_angle(rng) for _ in range(40)]))
-        else:
+        elif k < 0.965:
             hist.append(("copy", rng.random() < 0.5))
+        else:
+            hist.append(("switch",))
     recs = []
     finals = {}
     for ci, cfg in enumerate(cfgs):
@@ -785,6 +826,9 @@ def random_walk(seed, tid, cfgs, N, length, thorough):
                 if other is None:
                     other = cp
                 if step[1]:
+                    o, other = other, o
+            elif step[0] == "switch":
+                if other is not None:
                     o, other = other, o
         # end of the history: no stale caches - every earlier query again, on the long-lived object and on a
         # fresh object built from the same gate list
